@@ -34,10 +34,132 @@ static std::string check_pair(const uint8_t key[16], const uint8_t blk[16], int 
   return "";
 }
 
+// ---- directed inputs: a chosen internal state at a chosen round ----
+// Random blocks practically never put the cipher into a degenerate internal state (an all-zero column entering
+// MixColumns has probability 2^-32 per column and round). The reference's round functions are used to walk
+// backwards from such a state to the plaintext, and forwards to the ciphertext, that produce it under the key.
+namespace rounds
+{
+static void sub(uint8_t *s, bool inv)
+{
+  for (int i = 0; i < 16; i++)
+    s[i] = inv ? ref::inv_sbox(s[i]) : ref::sbox(s[i]);
+}
+static void shift(uint8_t *s, bool inv)
+{
+  uint8_t t[16];
+  for (int r = 0; r < 4; r++)
+    for (int c = 0; c < 4; c++)
+      if (!inv)
+        t[r + 4 * c] = s[r + 4 * ((c + r) % 4)];
+      else
+        t[r + 4 * ((c + r) % 4)] = s[r + 4 * c];
+  memcpy(s, t, 16);
+}
+static void mix(uint8_t *s, bool inv)
+{
+  static const uint8_t F[4] = {2, 3, 1, 1}, I[4] = {14, 11, 13, 9};
+  const uint8_t *m = inv ? I : F;
+  for (int c = 0; c < 4; c++)
+  {
+    uint8_t col[4];
+    for (int r = 0; r < 4; r++)
+    {
+      uint8_t x = 0;
+      for (int k = 0; k < 4; k++)
+        x ^= ref::gf_mul(m[(k - r + 4) % 4], s[k + 4 * c]);
+      col[r] = x;
+    }
+    memcpy(s + 4 * c, col, 4);
+  }
+}
+static void addkey(uint8_t *s, const uint8_t *rk)
+{
+  for (int i = 0; i < 16; i++)
+    s[i] ^= rk[i];
+}
+// `m` is the state entering MixColumns of round r (1..9) if point == 0, or the state entering SubBytes of
+// round r (1..10) if point == 1. Computes the plaintext and ciphertext of the block that passes through it.
+static void through(const ref::Aes128 &a, int point, int r, const uint8_t m[16], uint8_t pt[16], uint8_t ct[16])
+{
+  uint8_t s[16];
+  // backwards to the plaintext
+  memcpy(s, m, 16);
+  if (point == 0)
+  {
+    shift(s, true);
+    sub(s, true);
+  }
+  // s = state after AddRoundKey(r-1)
+  for (int k = r - 1; k >= 1; k--)
+  {
+    addkey(s, a.rk[k]);
+    mix(s, true);
+    shift(s, true);
+    sub(s, true);
+  }
+  addkey(s, a.rk[0]);
+  memcpy(pt, s, 16);
+  // forwards to the ciphertext
+  memcpy(s, m, 16);
+  if (point == 1)
+  {
+    sub(s, false);
+    shift(s, false);
+  }
+  // s = state entering MixColumns of round r (for r == 10 there is none)
+  for (int k = r; k <= 9; k++)
+  {
+    mix(s, false);
+    addkey(s, a.rk[k]);
+    sub(s, false);
+    shift(s, false);
+  }
+  addkey(s, a.rk[10]);
+  memcpy(ct, s, 16);
+}
+} // namespace rounds
+
 static Verdict run_c09(const Case &c)
 {
   Verdict v;
   std::string kind = c.get("kind", "batch");
+  if (kind == "state")
+  {
+    bytes k = c.getb("key");
+    k.resize(16);
+    int point = (int)c.geti("point"), r = (int)c.geti("round");
+    uint32_t mask = (uint32_t)c.geti("zeromask");
+    bytes fill = expand((uint64_t)c.geti("fill"), 16, 0);
+    if (r < 1 || r > (point == 0 ? 9 : 10))
+      r = 1;
+    uint8_t m[16], pt[16], ct[16], chk[16];
+    for (int i = 0; i < 16; i++)
+      m[i] = (mask >> i) & 1 ? 0 : (fill[i] ? fill[i] : 0x5a);
+    ref::Aes128 a(k.data());
+    rounds::through(a, point, r, m, pt, ct);
+    a.enc(pt, chk);
+    if (memcmp(chk, ct, 16))
+    {
+      Verdict f = Verdict::fail("harness: round walk disagrees with the reference cipher");
+      f.infra = true;
+      return f;
+    }
+    v.nontrivial = true;
+    v.weight = 2;
+    v.classes.push_back(point == 0 ? "chosen_state_entering_MixColumns" : "chosen_state_entering_SubBytes");
+    v.more_distinct.push_back(fnv64(hex(k) + hex(pt, 16)));
+    std::string msg = check_pair(k.data(), pt, 0);
+    if (msg.empty())
+      msg = check_pair(k.data(), ct, 0); // decrypt(ct) walks the same states backwards
+    if (!msg.empty())
+    {
+      Verdict f = Verdict::fail(msg + " [block chosen so that the state entering " + (point == 0 ? "MixColumns" : "SubBytes") + " of round " + std::to_string(r) + " is " + hex(m, 16) + "]");
+      f.nontrivial = true;
+      return f;
+    }
+    return v;
+  }
   if (kind == "tables")
   {
     v.nontrivial = true;
@@ -145,9 +267,52 @@ static Verdict run_c09(const Case &c)
   return v;
 }
 
+// zero patterns of a 4x4 state (bit i = byte r + 4c with i = r + 4c): columns, rows, diagonals, everything, all but one
+static uint32_t zero_pattern(long k, long sub)
+{
+  auto col = [](int c) { return 0xFu << (4 * c); };
+  auto row = [](int r) { return 0x1111u << r; };
+  auto diag = [](int d, bool anti) {
+    uint32_t m = 0;
+    for (int r = 0; r < 4; r++)
+      m |= 1u << (r + 4 * (((anti ? d - r : d + r) % 4 + 4) % 4));
+    return m;
+  };
+  switch (k % 8)
+  {
+  case 0:
+    return col((int)(sub % 4));
+  case 1:
+    return col((int)(sub % 4)) | col((int)((sub / 4) % 4));
+  case 2:
+    return row((int)(sub % 4));
+  case 3:
+    return diag((int)(sub % 4), false);
+  case 4:
+    return diag((int)(sub % 4), true);
+  case 5:
+    return 0xFFFFu;
+  case 6:
+    return 0xFFFFu & ~(1u << (sub % 16));
+  default:
+    return (uint32_t)(sub * 2654435761u) & 0xFFFFu;
+  }
+}
+
 static Case gen_c09()
 {
   Case c;
+  if (g::coin(10))
+  {
+    c.set("kind", "state");
+    c.setb("key", g::coin(80) ? g::raw(16) : bytes(16, (uint8_t)g::range(0, 256)));
+    long point = g::range(0, 2);
+    c.seti("point", point);
+    c.seti("round", g::range(1, point == 0 ? 10 : 11));
+    c.seti("zeromask", zero_pattern(g::range(0, 8), g::range(0, 65536)));
+    c.seti("fill", g::range(1, 1000000));
+    return c;
+  }
   if (g::coin(85))
   {
     c.set("kind", "batch");
@@ -167,6 +332,24 @@ static void fixed_c09(Ctx &ctx)
 {
   const Prop *p = find_prop("C09");
   uint64_t i = 0;
+  // every structured zero pattern at every round and both points, for three keys
+  for (int kk = 0; kk < 3; kk++)
+    for (int point = 0; point < 2; point++)
+      for (int r = 1; r <= (point == 0 ? 9 : 10); r++)
+        for (int pk = 0; pk < 7; pk++)
+          for (int sub = 0; sub < (pk == 1 || pk == 6 ? 16 : pk == 5 ? 1 : 4); sub++)
+          {
+            if (!mine(ctx, i++))
+              continue;
+            Case c;
+            c.set("kind", "state");
+            c.setb("key", kk == 0 ? bytes(16, 0) : kk == 1 ? unhex("000102030405060708090a0b0c0d0e0f") : expand(99, 16, 0));
+            c.seti("point", point);
+            c.seti("round", r);
+            c.seti("zeromask", zero_pattern(pk, sub));
+            c.seti("fill", 7 + r);
+            eval_fixed(*p, ctx, c);
+          }
   if (mine(ctx, i++))
   {
     Case c;
